@@ -31,10 +31,20 @@ type Summary struct {
 	Mismatches    []Mismatch     `json:"mismatches"`
 	Samples       []any          `json:"samples"`
 	Info          map[string]any `json:"info,omitempty"`
+	ByAspect      map[string]int `json:"by_aspect,omitempty"`
 }
 
 func (s *Summary) mismatch(desc map[string]any, c any) {
 	s.MismatchCount++
+	if a, ok := desc["aspect"].(string); ok {
+		if s.ByAspect == nil {
+			s.ByAspect = map[string]int{}
+		}
+		s.ByAspect[a]++
+		if s.ByAspect[a] > 4 && len(s.Mismatches) >= 8 {
+			return
+		}
+	}
 	if len(s.Mismatches) < 20 {
 		s.Mismatches = append(s.Mismatches, Mismatch{desc, c})
 	}
